@@ -1,5 +1,6 @@
 """C17 - a fitted CatToNumTransform is pure, label-independent and as documented."""
 import copy
+import warnings
 
 from harness import cattonum17 as cn
 from harness import core
@@ -197,6 +198,94 @@ class C17(core.Check):
             report['violations'].append(core.Violation('transform/raises/witness', 'the F9 witness (multiclass fit, rows with '
                                                        'labels <= 1 / y=None) raises again', case, 'frames', real['transforms']))
         report['extra']['old_branch_witness'] = {'model_old_raises': ok, 'real_code_ok': ok_real}
+        self.dataset_end_to_end(rng, 150 if tier == 'thorough' else 40, report)
+
+    def dataset_end_to_end(self, rng, n_cases, report):
+        """the usual pipeline (DataFrame -> Dataset.materialize() -> fit on the materialized frame with the dataset's
+        col_stats -> transform row subsets with / without labels) against the textbook value computed from the
+        DataFrame alone: (occurrences of the row's category + prior) / (N + 1), missing -> the most frequent category"""
+        import pandas as pd
+        import torch
+        from torch_frame import TensorFrame, stype
+        from torch_frame.data import Dataset
+        from torch_frame.transforms import CatToNumTransform
+        done = 0
+        for it in range(n_cases):
+            n = rng.randint(3, 12)
+            task = rng.choice(['reg', 'bin', 'multi'])
+            K = rng.randint(3, 4) if task == 'multi' else 2
+            ncat, nnum = rng.randint(1, 3), rng.randint(0, 2)
+            cols = {}
+            for j in range(ncat):
+                vals = [None if rng.random() < 0.2 else rng.choice(['a', 'b', 'c', 'dd']) for _ in range(n)]
+                if all(v is None for v in vals):
+                    vals[0] = 'a'
+                cols[f'c{j}'] = pd.Series(vals, dtype=object)
+            for j in range(nnum):
+                cols[f'n{j}'] = pd.Series([rng.randint(-8, 8) / 2.0 for _ in range(n)])
+            if task == 'reg':
+                y = [rng.randint(-16, 16) / 4.0 for _ in range(n)]
+            else:
+                y = [rng.randrange(K) for _ in range(n)]
+                for k in range(K):
+                    y[k % n] = k
+            cols['y'] = pd.Series(y)
+            df = pd.DataFrame(cols)
+            df.index = rng.choice([list(range(n)), list(range(7, 7 + n)), [i // 2 for i in range(n)]])
+            c2s = {c: (stype.categorical if c[0] == 'c' else stype.numerical) for c in cols}
+            c2s['y'] = stype.numerical if task == 'reg' else stype.categorical
+            case = {'pipeline': 'dataset', 'task': task, 'frame': {c: list(map(lambda v: None if v is None else v, cols[c].tolist()))
+                                                                  for c in cols}}
+            try:
+                with warnings.catch_warnings():
+                    warnings.simplefilter('ignore')      # numpy-not-writable notice of the categorical mapper
+                    ds = Dataset(df, c2s, target_col='y').materialize()
+                tf = ds.tensor_frame
+                t = CatToNumTransform()
+                t.fit(tf, ds.col_stats)
+                labels = tf.y.tolist()
+                classes = len(set(y))          # a categorical target is mapped to 0..classes-1
+                if task == 'multi' and classes > 2:
+                    prior = [sum(1 for v in labels if v == k) / n for k in range(classes - 1)]
+                else:
+                    prior = [sum(labels) / n]
+                cat_names = tf.col_names_dict[stype.categorical]
+                num_names = tf.col_names_dict.get(stype.numerical, [])
+                exp_names = list(num_names) + [f'{c}_{k}' for c in cat_names for k in range(len(prior))]
+
+                def expected(i):
+                    row = [float(df[c].iloc[i]) for c in num_names]
+                    for c in cat_names:
+                        v = df[c].iloc[i]
+                        cnts = df[c].value_counts()
+                        cnt = int(cnts.max()) if v is None else int(cnts[v])
+                        row += [(cnt + p) / (n + 1) for p in prior]
+                    return row
+                idx = [rng.randrange(n) for _ in range(rng.randint(1, n))]
+                for sel, with_y in ((list(range(n)), True), (idx, True), (idx, False)):
+                    sub = tf[sel]
+                    if (sub.feat_dict[stype.categorical] < 0).all(0).any():
+                        continue
+                    if not with_y:
+                        sub = TensorFrame(sub.feat_dict, sub.col_names_dict, None)
+                    out = t(sub)
+                    got = out.feat_dict[stype.numerical].tolist()
+                    exp = [expected(i) for i in sel]
+                    if out.col_names_dict[stype.numerical] != exp_names or list(t.transformed_stats.keys()) != exp_names \
+                            or stype.categorical in out.feat_dict or not cn.close(got, exp, rel=2e-6, abs_=4e-6):
+                        report['violations'].append(core.Violation(
+                            'dataset-pipeline/values-or-names', 'fit on a materialized dataset, transform of rows '
+                            f'{sel} (labels {"kept" if with_y else "absent"}): names or values differ from the textbook',
+                            case, {'names': exp_names, 'rows': exp}, {'names': out.col_names_dict[stype.numerical], 'rows': got}))
+                        return
+                done += 1
+            except Exception as e:
+                report['violations'].append(core.Violation(
+                    'dataset-pipeline/raises', f'the materialize -> fit -> transform pipeline raised {type(e).__name__}: {e}',
+                    case, 'a transformed frame', 'raises'))
+                return
+        report['extra']['dataset_pipeline'] = {'frames': done, 'exhaustive': False,
+                                               'what': 'DataFrame -> materialize -> fit -> transform vs textbook values'}
 
 
 CHECK = C17()
